@@ -167,16 +167,24 @@ SUPPORTED_COMMENT_PROGRAMS = [
     "{\n  [k]: 1  @L comp\n  for k in ['a']\n}",
     "local o = {\n  @L c\n  a: 1,\n};\no { @L ext\n  b: 2,\n}",
     "{\n  @L first\n  a: 1,  @L after a\n  @B\n  b: [\n    @L in array\n    1,  @L after 1\n    2,\n    @L end\n  ],\n  @L last\n}",
+    # a comment as the only content of a bracket pair (the "end of the list" position of an empty list)
+    "local now() = 1;\n{\n  a: now(@B),\n  b: now(\n    @L nothing to pass\n  ),\n}",
+    "{\n  a: [\n    @L empty array\n  ],\n  b: {\n    @L empty object\n  },\n}",
+    "local f() = 2;\nf(\n  @L no arguments\n) + f(@B)",
 ]
 
 
-def supported_comment_programs(unspaced=False):
+def supported_comment_programs(unspaced=False, empty_brackets=True):
     """unspaced=True: the same programs with comments that have no blank after the marker (`#x`, `/*x*/`, `/**/`),
     which the formatter re-spaces - a known finding of its own"""
     out = []
     variants = (("#x", "/*x*/"), ("//x", "/**/")) if unspaced else \
         (("// c", "/* c */"), ("# c", "/* c */"), ("// é 漢 \\ ' \"", "/* * / */"), ("//", "/* c */"))
     for t in SUPPORTED_COMMENT_PROGRAMS:
+        # C20 leaves these out: a comment alone inside call parentheses is kept (C19 checks that) but gains a blank line per
+        # pass - the recorded finding C20-comment-placement-not-idempotent (cores `f(/* c */)`, `f(// c\n)`)
+        if not empty_brackets and t in SUPPORTED_COMMENT_PROGRAMS[-3:]:
+            continue
         for line, block in variants:
             out.append(t.replace("@L", line).replace("@B", block))
     return list(dict.fromkeys(out))
